@@ -311,6 +311,9 @@ func CER(a Args) error {
 	// a further dictionary pair loaded on top of the embedded ones defines application 777
 	// twice, as auth and as acct (the state machine advertises from dict.Default, so the
 	// default dictionary itself is extended, in this process only)
+	// ... after a first state machine has been created: what a state machine supports is what the
+	// dictionary holds when it is created, not when the process created its first one
+	_ = sm.New(&sm.Settings{OriginHost: srvSettings.OriginHost, OriginRealm: srvSettings.OriginRealm, VendorID: 13, ProductName: "verif-early"})
 	if err := dict.Default.Load(strings.NewReader(dualXML1)); err != nil {
 		return err
 	}
